@@ -496,15 +496,14 @@ func isUpdatingIndexedFields(index CollectionIndex, oldDoc, newDoc *client.Docum
 		oldVal, getOldValErr := oldDoc.GetValue(indexedFields.Name)
 		newVal, getNewValErr := newDoc.GetValue(indexedFields.Name)
 
-		// GetValue will return an error when the field doesn't exist.
-		// This will happen for oldDoc only if the field hasn't been set
-		// when first creating the document. For newDoc, this will happen
-		// only if the field hasn't been set when first creating the document
-		// AND the field hasn't been set on the update.
+		// GetValue will return an error when the field doesn't exist: a document read from the
+		// store has no entry for a field whose value is null.
+		oldIsNil := getOldValErr != nil || oldVal == nil || oldVal.Value() == nil
+		newIsNil := getNewValErr != nil || newVal == nil || newVal.Value() == nil
 		switch {
-		case getOldValErr != nil && getNewValErr != nil:
+		case oldIsNil && newIsNil:
 			continue
-		case getOldValErr != nil && getNewValErr == nil:
+		case oldIsNil != newIsNil:
 			return true
 		case !oldVal.NormalValue().Equal(newVal.NormalValue()):
 			return true
